@@ -310,7 +310,14 @@ def replay(prop, path):
     ctx = Ctx(prop, 0, "quick")
     ctx.scratch = tempfile.mkdtemp(prefix=f"lmmverif_{prop}_")
     try:
-        with contextlib.redirect_stdout(io.StringIO()):
+        dbg = (data.get("extra") or {}).get("log_level") == "DEBUG"
+        from . import build
+        sq = (data.get("extra") or {}).get("backend")
+        if isinstance(sq, dict) and sq.get("incremental"):
+            build._BACKEND["incremental"] = True
+            sq = None
+        with contextlib.redirect_stdout(io.StringIO()), env.debug_level(dbg), \
+                build.sqlite_backend(bool(sq), ctx.scratch, bulk=(sq or {}).get("bulk", True), prior=(sq or {}).get("prior")):
             if hasattr(mod, "shard_setup"):
                 mod.shard_setup(ctx)
             if hasattr(mod, "replay_case"):
